@@ -16,7 +16,7 @@ worker() {
   i=0
   while read id; do
     i=$((i+1)); [ $(( (i-1) % N )) -eq $((k-1)) ] || continue
-    P=${id%%-*}
+    P=${id%%-*}; SC=$(jq -r ".sweep_check // empty" $ROOT/seeded/$id/meta.json 2>/dev/null); [ -n "$SC" ] && P=$SC
     grep -q superseded_by_fix $ROOT/seeded/$id/meta.json 2>/dev/null && { echo "$id: superseded by a fix (skipped)"; continue; }
     git -C $W checkout -q -- . ; git -C $W clean -fdq
     if ! git -C $W apply $ROOT/seeded/$id/patch.diff 2>/dev/null; then echo "$id: patch does not apply"; continue; fi
